@@ -3,6 +3,7 @@
 package ui
 
 import (
+	"strconv"
 	"fmt"
 	"os"
 	"strings"
@@ -126,6 +127,17 @@ func TestVerifC07(t *testing.T) {
 		}
 		ok := true
 		for ti, tk := range tokens {
+			if pg := m.page(); pg != nil && m.mode == "normal" {
+				// on an item with two-digit link numbers, every other key is replaced by a number written with leading zeros
+				// (decimal whatever the spelling) or by the item's last number and the one after it
+				if nl := len(linksOf(pg.current())); nl >= 8 && r.Intn(2) == 0 {
+					k := 8 + r.Intn(nl-7)
+					num := []string{"0" + strconv.Itoa(k), "00" + strconv.Itoa(k), strconv.Itoa(nl), strconv.Itoa(nl + 1), "0" + strconv.Itoa(nl+1)}[r.Intn(5)]
+					end := []string{".", "\r", "."}[r.Intn(3)]
+					tk = tok("number "+num+" then "+strconv.Quote(end), num+end)
+					c.Count("numbers_on_link_rich_items", 1)
+				}
+			}
 			trail = append(trail, tk.desc)
 			if ti%17 == 5 {
 				w, h := 30+r.Intn(120), 3+r.Intn(58)
